@@ -1,6 +1,6 @@
 (* C04 — fields and elements are laid out in order, inside their element, without overlap. *)
 From Coq Require Import ZArith List Bool.
-From Cntgs Require Import Base BaseLemmas Layout LayoutThm.
+From Cntgs Require Import Base BaseLemmas Layout LayoutThm Mem Vector Proxy Spec Rep Refine NtRefine LayoutHist.
 Import ListNotations.
 Local Open Scope Z_scope.
 
@@ -29,3 +29,51 @@ Example C04_example :
   extents L [2; 1; 3] (fst (place L [2; 1; 3] 16)) = [(16, 22); (24, 26); (28, 43)] /\
   snd (place L [2; 1; 3] 16) = 43.
 Proof. vm_compute. repeat split; reflexivity. Qed.
+
+(* ---------- vector level: what the library computes when element i is accessed ----------
+   In EVERY represented state (Rep: list of tuples, offsets, bookkeeping - what every valid
+   history reaches) the field table loaded for element i (address and object count of each
+   field) is the placement of that element's tuple: the element starts at a multiple of the
+   storage alignment and every field at a multiple of its parameter's alignment (C03); every
+   field has exactly the object count of the stored tuple, the first field starts at the
+   element start, the byte extents of the fields are ordered, disjoint and inside the
+   element, the element ends before data_end() and before every later element starts (C04).
+   Offsets are relative to the block, whose base the allocator aligns to the storage unit. *)
+Theorem C04_represented_states : forall L, wf_plist L = true -> forall v l offs, RepO L v l offs ->
+  forall i, (i < length l)%nat ->
+    let t := nth i l [] in
+    let a := eaddr L v (Z.of_nat i) in
+    let fl := vfl L v (Z.of_nat i) in
+    0 <= a /\ (SA L | a) /\
+    Forall2 (fun p x => (pal p | x)) L (map fst fl) /\
+    map snd fl = cnts_of t /\
+    hd a (map fst fl) = a /\
+    ordered_from a (extents L (cnts_of t) (map fst fl)) (elem_end L a t) /\
+    elem_end L a t <= dend L v /\
+    (forall k, (i < k < length l)%nat -> elem_end L a t <= eaddr L v (Z.of_nat k)).
+Proof. exact rep_element_layout. Qed.
+Print Assumptions C04_represented_states.
+
+(* ... hence after EVERY valid history of emplace_back / pop_back / erase / clear / reserve from
+   construction, for every well-formed list (erase with elements behind the erased ones on
+   trivially relocatable lists, NtRefine.nt_hist_ok) *)
+Theorem C04_every_history : forall L cap budget fixed aid junk bid tbid h,
+  wf_plist L = true -> 0 <= cap -> Forall (fun c => 0 <= c) fixed ->
+  let v0 := fst (mkvec L cap budget fixed aid junk bid tbid) in
+  let s0 := {| s_cap := cap; s_elems := [] |} in
+  shist_valid L (fixed_counts L fixed) s0 h -> nt_hist_ok L s0 h ->
+  let v := vrun L junk v0 h in
+  let l := s_elems (srun s0 h) in
+  forall i, (i < length l)%nat ->
+    let t := nth i l [] in
+    let a := eaddr L v (Z.of_nat i) in
+    let fl := vfl L v (Z.of_nat i) in
+    0 <= a /\ (SA L | a) /\
+    Forall2 (fun p x => (pal p | x)) L (map fst fl) /\
+    map snd fl = cnts_of t /\
+    hd a (map fst fl) = a /\
+    ordered_from a (extents L (cnts_of t) (map fst fl)) (elem_end L a t) /\
+    elem_end L a t <= dend L v /\
+    (forall k, (i < k < length l)%nat -> elem_end L a t <= eaddr L v (Z.of_nat k)).
+Proof. exact layout_every_history. Qed.
+Print Assumptions C04_every_history.
